@@ -17,6 +17,10 @@ def items(tier):
     for c in grid.program_grid(tier):
         out.append(("vjp", c))
         out.append(("jvp", c))
+    # graphs in which an executed operation is itself a differentiation (nested programs): the chain rule over the outer
+    # graph needs the inner derivative as a function of the outer variable
+    for c in grid.nested_grid(tier):
+        out.append(("vjp", c))
     return out
 
 
